@@ -129,6 +129,21 @@ func CompareRoundTrip(m *Model, def string, origJSON, gotJSON string) ([]Diff, e
 	return out, nil
 }
 
+// onlyConstants: a struct all of whose fields are constants (its only value
+// is known without reading anything).
+func onlyConstants(m *Model, t T) bool {
+	if t.Kind != KStruct || len(t.Fields) == 0 {
+		return false
+	}
+	for _, f := range t.Fields {
+		rt := m.Resolve(f.Type)
+		if f.Type.Const == nil && rt.Const == nil && !(rt.Kind == KEnum && len(rt.Members) == 1) {
+			return false
+		}
+	}
+	return true
+}
+
 func cmpTyped(m *Model, t T, orig, got any, path string, out *[]Diff) {
 	switch t.Kind {
 	case KRef:
@@ -178,7 +193,7 @@ func cmpTyped(m *Model, t T, orig, got any, path string, out *[]Diff) {
 					*out = append(*out, Diff{Path: fp, Class: cls, Detail: fmt.Sprintf("%s is in the original but not in the re-encoding", short(ov)), FieldKind: f.Type.Kind})
 				case !oin && gin:
 					cls := "extra"
-					if rt := m.Resolve(f.Type); f.Type.Const != nil || rt.Const != nil || (rt.Kind == KEnum && len(rt.Members) == 1) {
+					if rt := m.Resolve(f.Type); f.Type.Const != nil || rt.Const != nil || (rt.Kind == KEnum && len(rt.Members) == 1) || onlyConstants(m, rt) {
 						cls = "constant-materialised"
 					} else if f.Type.Default != nil {
 						if _, same := jsonEq(rawAny(f.Type.Default), gv, fp); same {
